@@ -49,6 +49,7 @@ type Frame struct {
 	loopIdx    *ssa.Phi
 	loopPhis   []*ssa.Phi
 	loopNames  map[string]*ssa.Phi
+	loopRange  *ssa.Range
 	loopHead   map[int]*loopCtx
 	paramEntry map[string]Term
 	named      map[string]Term
@@ -549,6 +550,18 @@ func (g *Gen) writeSet(fn *ssa.Function, blocks []*ssa.BasicBlock, seen map[*ssa
 			case *ssa.Range, *ssa.Next:
 				comps["IT"] = true
 				g.compDecl("IT", "(Array Int Int)")
+				var rx ssa.Value
+				if r, ok := i.(*ssa.Range); ok {
+					rx = r.X
+				} else if r, ok := i.(*ssa.Next).Iter.(*ssa.Range); ok {
+					rx = r.X
+				}
+				if rx != nil {
+					if mt, ok := types.Unalias(rx.Type()).Underlying().(*types.Map); ok {
+						vc, _ := g.visitedComp(mt)
+						comps[vc] = true
+					}
+				}
 			case ssa.CallInstruction:
 				cs, a := g.callWriteSet(i.Common(), seen)
 				if a {
@@ -732,7 +745,15 @@ func (g *Gen) loopHeader(f *Frame, ci *cfgInfo, b *ssa.BasicBlock, preds []*ssa.
 		}
 	}
 	f.loopNames = names
-	defer func() { f.loopNames = nil }()
+	f.loopRange = nil
+	for _, ins := range b.Instrs {
+		if nx, ok := ins.(*ssa.Next); ok {
+			if r, ok := nx.Iter.(*ssa.Range); ok {
+				f.loopRange = r
+			}
+		}
+	}
+	defer func() { f.loopNames = nil; f.loopRange = nil }()
 	defer func() { f.loopIdx = nil; f.loopPhis = nil }()
 	// automatic invariant of "for i := range slice" loops (SSA rangeindex pattern): -1 <= idx < n
 	type autoInv struct {
@@ -847,7 +868,7 @@ func (g *Gen) loopHeader(f *Frame, ci *cfgInfo, b *ssa.BasicBlock, preds []*ssa.
 	if f.loopHead == nil {
 		f.loopHead = map[int]*loopCtx{}
 	}
-	lc := &loopCtx{phis: phis, spec: spec, k: k, autos: lcAutos, names: names}
+	lc := &loopCtx{phis: phis, spec: spec, k: k, autos: lcAutos, names: names, rng: f.loopRange}
 	if spec != nil && spec.Decreases != nil {
 		v := g.clauseTerm(f, spec.Decreases, f.st, nil)
 		lc.varAtHead = g.defFresh("variant", "Int", v.S)
@@ -1010,6 +1031,7 @@ func (g *Gen) preservePrivate(f *Frame, old, nw *State, skip map[*ssa.Alloc]bool
 }
 
 type loopCtx struct {
+	rng       *ssa.Range
 	names     map[string]*ssa.Phi
 	autos     map[*ssa.Phi]string
 	phis      []*ssa.Phi
@@ -1036,12 +1058,13 @@ func (g *Gen) backEdge(f *Frame, from, hdr *ssa.BasicBlock, en string) {
 	}
 	f.loopPhis = lc.phis
 	f.loopNames = lc.names
+	f.loopRange = lc.rng
 	for _, phi := range lc.phis {
 		if phi.Comment == "rangeindex" {
 			f.loopIdx = phi
 		}
 	}
-	defer func() { f.loopIdx = nil; f.loopPhis = nil; f.loopNames = nil }()
+	defer func() { f.loopIdx = nil; f.loopPhis = nil; f.loopNames = nil; f.loopRange = nil }()
 	// evaluate invariant with phis := back-edge values in current state
 	saved := map[*ssa.Phi]Term{}
 	for _, phi := range lc.phis {
